@@ -13,7 +13,7 @@ use version_lsp::version::checker::VersionStorer;
 pub const REGS: [RegistryType; 4] = [RegistryType::Npm, RegistryType::CratesIo, RegistryType::PnpmCatalog, RegistryType::GitHubActions];
 pub const NAMES: &[&str] = &["a", "b", "A", "a b", "", "a'b", "a\"b;--", "%", "_", "a%", "é", "a\u{0}b", "x/y", "@s/p"];
 pub const VERSIONS: &[&str] = &["1.0.0", "1.2.3", "v1.2.3", "2.0.0-beta.1", "2.0.0", "1.0", "1", "10.0.0", "1.0.0+b", "garbage", "",
-    "3.0.0-rc.1", "0.0.0-20210101000000-abcdefabcdef", "v2.0.0+incompatible", "2.0.0-alpha", "9.9.9-0", "1.2.3+b2", "01.0.0", "=2.0.0", "2.0"];
+    "3.0.0-rc.1", "0.0.0-20210101000000-abcdefabcdef", "v2.0.0+incompatible", "2.0.0-alpha", "9.9.9-0", "1.2.3+b2", "01.0.0", "=2.0.0", "2.0", "10.1.0+build-7", "v11.0.0+sha-4d5e6f7", "11.0.0-rc.1+x-y"];
 pub const TAGS: &[&str] = &["latest", "next", "beta", "Latest", "", "x"];
 
 pub fn raw_tables(path: &std::path::Path) -> Value {
